@@ -45,6 +45,8 @@ def one_run(ctx, drv, idx, case):
     # "same inputs" is a premise of the property
     env['GODEBUG'] = 'randseednop=0'
     argv = [drv, '-bench', case['bench'], '-mode', case['mode'], '-vseed', str(case.get('vseed', 1)), '-disable-rtm']
+    if case.get('idskip'):
+        argv += ['-idskip', str(case['idskip'])]
     argv += case['flags']
     p = ctx.run(argv, cwd=cwd, timeout=900, env=env, check=False)
     if p.returncode != 0:
@@ -157,6 +159,27 @@ def run(ctx, selftest=False):
     with ThreadPoolExecutor(max_workers=6) as ex:
         results = list(ex.map(lambda ic: one_run(ctx, drv, ic[0], ic[1]), enumerate(cases)))
 
+    # second phase: the same lazy run with akita's process-wide id counter shifted so that it crosses a power of ten
+    # between two wavefronts of one work-group (ids are decimal strings: an order taken from them changes there).
+    # The shift is calibrated from the wavefront ids the reference run recorded.
+    shifted = []
+    for res in results:
+        cs = res['case']
+        if 'obs' not in res or not cs['timing'] or cs['mode'] != 'lazy' or cs['gomaxprocs'] != 16:
+            continue
+        ids = [int(x) for x in res['obs'].get('wavefront_ids') or [] if str(x).isdigit()]
+        if len(ids) < 4:
+            continue
+        top = 10 ** len(str(max(ids)))
+        for j in ([1, 9, 18, 27] if thorough else [1, 9]):
+            if j < len(ids):
+                g = dict(cs)
+                g.update({'idskip': top - ids[j], 'mode': 'lazy', 'gomaxprocs': 4})
+                shifted.append(g)
+    with ThreadPoolExecutor(max_workers=6) as ex:
+        results += list(ex.map(lambda ic: one_run(ctx, drv, 1000 + ic[0], ic[1]), enumerate(shifted)))
+    ctx.cov['id_shifted_runs'] = len(shifted)
+
     refs = {}
     nontrivial = set()
     compared = 0
@@ -176,7 +199,7 @@ def run(ctx, selftest=False):
             refs[key] = (c, o)
         if len(o.get('commands', [])) >= 2 or not c['timing']:
             if c['mode'] == 'free' or o.get('steered', 0) > 0:
-                nontrivial.add((c['bench'], c['platform'], c['mode'], c.get('vseed', 0), c['gomaxprocs'], bool(c.get('parallel_engine'))))
+                nontrivial.add((c['bench'], c['platform'], c['mode'], c.get('vseed', 0), c['gomaxprocs'], bool(c.get('parallel_engine')), c.get('idskip', 0)))
     for res in results:
         if 'error' in res:
             continue
@@ -198,7 +221,7 @@ def run(ctx, selftest=False):
             # run-to-run variation shows up there.
             sig = {'kind': 'timing_depends_on_host_schedule'}
         what = ('C05: %s on %s: run %s differs from reference %s in %s (end %s vs %s)' % (
-            c['bench'], c['platform'], json.dumps({k: c[k] for k in ('mode', 'gomaxprocs')}),
+            c['bench'], c['platform'], json.dumps({k: c.get(k) for k in ('mode', 'gomaxprocs', 'idskip')}),
             json.dumps({k: rc[k] for k in ('mode', 'gomaxprocs')}), d, o.get('end_time_ps'), ro.get('end_time_ps')))
         ctx.report_failure(what, sig, {'case': c, 'reference_case': rc,
                                        'commands': o.get('commands'), 'reference_commands': ro.get('commands')})
